@@ -9,6 +9,7 @@ HARNESSES = [
     dict(name="c16e1", kind="sched", srcs=["harness/c16/c16_pstl.cpp"], defs=["-DC16_E1"]),
     dict(name="c15", kind="native", srcs=["harness/c15/c15_reduce.cpp"]),
     dict(name="c13", kind="native", srcs=["harness/c13/c13_divide.cpp"]),
+    dict(name="c07", kind="sched", srcs=["harness/foreach/c07_main.cpp"]),
     dict(name="foreach", kind="sched",
          srcs=["harness/foreach/fe_main.cpp", "harness/foreach/fe_op.cpp", "harness/foreach/fe_wl.cpp",
                "harness/foreach/fe_wl_a.cpp", "harness/foreach/fe_wl_b.cpp", "harness/foreach/fe_wl_c.cpp",
@@ -129,6 +130,22 @@ PROPS = {
         assumptions=["only harness-declared payload is race-checked; intentional benign races inside the runtime are not reported",
                      "out-of-scope configurations of the reused generators (C01/C03 known findings) are excluded by construction"],
     ),
+    "C07": dict(
+        variants={"sched": ["galois_shmem"]},
+        units=[dict(type="rc", harness="c07", quick=9000, thorough=150000)],
+        engine="gsched+rapidcheck",
+        technique="property-based testing with a differential/metamorphic oracle: each generated cautious program (non-commutative updates, dynamic work creation) is executed 3-4 times under the deterministic scheduler with different thread counts and fresh interleavings; per-object commit sequences, final state and executed item multiset must be identical; C01/C02 oracles inside each execution; HB check of the object payload",
+        rule=("cases = (trait variant plain|det_id|fixed_neighborhood|local_state|det_parallel_break|per_iter_alloc, 3-4 executions with "
+              "thread counts from {1,2,3,4,8}, program: initial items, fan-out, depth, objects, neighbourhood size, delays, break "
+              "threshold; schedule); non-trivial = an execution with >=2 threads AND >=2 committed items shared an object AND >=1 child "
+              "was created; distinct = hash of the case"),
+        level_text=("Differential across executions of the same program in one process (the scheduler's random stream gives each execution "
+                    "new interleavings): commit order per object, final values, executed multiset, and with det_parallel_break the set "
+                    "committed before the break. Exploration only."),
+        level_note="trusted: gsched, the program model; intent_to_read is not instantiated; the fixed_neighborhood (DAG) variant is a known finding and excluded by construction while listed",
+        assumptions=["operators follow the applications' deterministic style: acquire neighbourhood, ctx.cautiousPoint(), then writes and pushes that are functions of the item only",
+                     "distinct item ids; det_id is injective; fixed_neighborhood requires det_id (static_assert)"],
+    ),
     "C08": dict(
         variants={"sched": ["galois_shmem"]},
         units=[dict(type="rc", harness="foreach", quick=14000, thorough=200000)],
@@ -198,9 +215,9 @@ PROPS = {
 }
 
 ENGINES = [
-    dict(name="gsched", path="engine/gsched", serves_properties=["C01", "C02", "C03", "C04", "C05", "C06", "C08", "C16"],
+    dict(name="gsched", path="engine/gsched", serves_properties=["C01", "C02", "C03", "C04", "C05", "C06", "C07", "C08", "C16"],
          kind_free_text="schedule-owning runtime behind clang's TSan instrumentation ABI + pthread interposition; vector-clock HB tracker"),
-    dict(name="rapidcheck fork driver", path="harness/common/verif_e1.h", serves_properties=["C01", "C02", "C03", "C04", "C05", "C06", "C08", "C16"],
+    dict(name="rapidcheck fork driver", path="harness/common/verif_e1.h", serves_properties=["C01", "C02", "C03", "C04", "C05", "C06", "C07", "C08", "C16"],
          kind_free_text="rapidcheck generation/shrinking in a parent process, one forked child per case, replay files"),
 ]
 
